@@ -40,6 +40,20 @@ def combined(rng, junk):
     return out, covs
 
 
+def make_frames(seed, index_kind='default'):
+    """the three variants of one combined data set (junk Y / missing A,Y / junk A,Y outside the sample), with row
+    labels that are not positions when asked (frames sorted / sampled / sliced without reset_index)"""
+    dfj, covs = combined(np.random.default_rng(seed), junk=True)
+    dfn, _ = combined(np.random.default_rng(seed), junk=False)
+    dfa, _ = combined(np.random.default_rng(seed), junk='AY')
+    for fr in (dfj, dfn, dfa):
+        if index_kind == 'shifted':
+            fr.index = np.arange(len(fr)) + 700
+        elif index_kind == 'shuffled':
+            fr.index = np.random.default_rng(seed + 1).permutation(len(fr))
+    return dfj, dfn, dfa, covs
+
+
 def closed_form(df, covs):
     sid = gen.strata_ids(df, covs)
     S = sorted(set(sid.tolist()))
@@ -72,6 +86,13 @@ def estimators(df, covs, g, stab, treat, which, grepr=bool):
     cols = covs + ['A', 'Y', 'S']
     sc = gen.sat_cov(covs)
     g = grepr(g)
+    if getattr(df, '_verif_shared', False):
+        class _AsIs:            # hand the very same DataFrame object to the estimator (aliasing / cross-object leaks)
+            def __getitem__(self, _):
+                return df
+        frame = _AsIs()
+    else:
+        frame = df
     if which == 'IPSW' and treat == 'column':
         # treatment weights supplied as a precomputed IPTW column (saturated treatment model fitted on the sample by the
         # harness), no treatment_model() call
@@ -85,16 +106,16 @@ def estimators(df, covs, g, stab, treat, which, grepr=bool):
         e.sampling_model(sc, stabilized=stab, print_results=False)
         e.fit()
     elif which == 'IPSW':
-        e = IPSW(df[cols], exposure='A', outcome='Y', selection='S', generalize=g)
+        e = IPSW(frame[cols], exposure='A', outcome='Y', selection='S', generalize=g)
         e.sampling_model(sc, stabilized=stab, print_results=False)
         e.treatment_model(sc, stabilized=stab, print_results=False)
         e.fit()
     elif which == 'GTransportFormula':
-        e = GTransportFormula(df[cols], exposure='A', outcome='Y', selection='S', generalize=g)
+        e = GTransportFormula(frame[cols], exposure='A', outcome='Y', selection='S', generalize=g)
         e.outcome_model(gen.sat_out(covs), print_results=False)
         e.fit()
     else:
-        e = AIPSW(df[cols], exposure='A', outcome='Y', selection='S', generalize=g)
+        e = AIPSW(frame[cols], exposure='A', outcome='Y', selection='S', generalize=g)
         e.sampling_model(sc, stabilized=stab, print_results=False)
         if treat:
             e.treatment_model(sc, stabilized=stab, print_results=False)
@@ -146,9 +167,8 @@ def run(chk, drv, rng, tier):
     nds = 20 if tier == 'quick' else 60
     for _ in range(nds):
         seed = int(rng.integers(0, 2 ** 31))
-        dfj, covs = combined(np.random.default_rng(seed), junk=True)
-        dfn, _ = combined(np.random.default_rng(seed), junk=False)
-        dfa, _ = combined(np.random.default_rng(seed), junk='AY')
+        index_kind = ['default', 'shifted', 'shuffled'][int(rng.integers(0, 3))]
+        dfj, dfn, dfa, covs = make_frames(seed, index_kind)
         cf = closed_form(dfn, covs)
         sid = gen.strata_ids(dfn, covs)
         # gate H: reference saturated sampling fit = stratum sampling fractions
@@ -160,8 +180,12 @@ def run(chk, drv, rng, tier):
             continue
         crude = dfn[dfn.S == 1].groupby('A')['Y'].mean()
         nontriv = abs(float(cf[(True, 1)] - cf[(False, 1)])) > 1e-9 and abs(crude[1] - float(cf[(True, 1)])) > 1e-9
-        rec = gen.describe(dfn, covs, n_sample=int((dfn.S == 1).sum()), n_target=int((dfn.S == 0).sum()), data_seed=seed)
+        rec = gen.describe(dfn, covs, n_sample=int((dfn.S == 1).sum()), n_target=int((dfn.S == 0).sum()), data_seed=seed,
+                           index=index_kind)
         dsid = hash(dfn.to_csv())
+        # ONE frame object handed as is to every estimator of this data set, in sequence (what a user's session does)
+        shared = dfn[covs + ['A', 'Y', 'S']].copy()
+        shared._verif_shared = True
         if drv is not None:   # the model's own closed form against the harness's independent one (exact)
             rep, _ = drv.ask('stdgen', **enc(dfn, covs, fl=False))
             chk.k(rep['status'] == 'ok' and (Fraction(rep['gen1']), Fraction(rep['gen0']), Fraction(rep['tr1']),
@@ -181,7 +205,23 @@ def run(chk, drv, rng, tier):
                                                  '' if treat is None else ('/treat' if treat else '/notreat')))
                         grepr = [bool, np.bool_, int][int(rng.integers(0, 3))]
                         case['generalize_passed_as'] = grepr.__name__
-                        e = estimators(dfn, covs, g, stab, treat, which, grepr)
+                        snap = shared.copy(deep=True)
+                        try:
+                            e = estimators(shared, covs, g, stab, treat, which, grepr)
+                        except Exception as ex:      # noqa: BLE001
+                            chk.d(False, '%s runs on a valid combined data set' % which, dict(case, impl_error=repr(ex)))
+                            continue
+                        # history / aliasing: the caller's frame is untouched (a later estimator built from the same frame
+                        # must see the same data), and a second fit() on the same object reproduces the first
+                        chk.d(snap.equals(shared) and list(snap.index) == list(shared.index) and
+                              list(snap.columns) == list(shared.columns),
+                              "%s leaves the caller's DataFrame untouched" % which, case)
+                        first = (float(e.risk_difference), float(e.risk_ratio))
+                        e.fit()
+                        chk.d(close(e.risk_difference, first[0], rtol=1e-12, atol=1e-14) and
+                              close(e.risk_ratio, first[1], rtol=1e-12, atol=1e-14),
+                              '%s: a second fit() on the same object reproduces the first' % which,
+                              dict(case, first=first, second=[float(e.risk_difference), float(e.risk_ratio)]))
                         ej = estimators(dfj, covs, g, stab, treat, which)
                         want_rd = float(cf[(g, 1)] - cf[(g, 0)])
                         want_rr = float(cf[(g, 1)] / cf[(g, 0)])
@@ -210,8 +250,7 @@ def replay(rec):
     for f in rec.get('failures', []):
         c = f['case']
         seed = c['data']['data_seed']
-        dfj, covs = combined(np.random.default_rng(seed), junk=True)
-        dfn, _ = combined(np.random.default_rng(seed), junk=False)
+        dfj, dfn, _, covs = make_frames(seed, c['data'].get('index', 'default'))
         cf = closed_form(dfn, covs)
         with common.quiet():
             grepr = {'bool': bool, 'bool_': np.bool_, 'int': int}.get(c.get('generalize_passed_as', 'bool'), bool)
